@@ -51,7 +51,7 @@ def _registry_access(ck, repo):
                 ok = key in ("schema_name", "schema.name")
                 ck.ob(f"{f.qualname}: the registry is accessed under a schema-name key (`{key}`)", ok, f, fv.stmt_of(x), construct=f"registry:{f.qualname}:{key}",
                       detail="an access not keyed by the schema name (iteration, a literal name) couples engines of different names")
-    ck.count("registry_access_sites", n, 8)
+    ck.count("registry_access_sites", n, 3)  # a vacuity guard only: a local alias of a sub-dictionary legitimately removes sites
     outside = [f.short for f in repo.all_funcs() if f.cls is not cls for x in walk_no_nested(f.node) if isinstance(x, ast.Attribute) and x.attr == "_schemas"]
     ck.ob("only SchemaRegistry touches the registry dict", not outside, where=REG, construct="registry:encapsulated", detail=str(outside))
     # who passes the key: each decorator registers under its own _schema_name, the engine under its own schema_name
